@@ -1104,6 +1104,26 @@ def do_replay(path):
     rp = json.load(open(path))
     print("replaying", rp["key"], "\n ", rp["what"])
     r = rp["replay"]
+    if "ops" in r and "init" in r:  # history of assignments
+        sts = [{"isc": r["init"]}]
+        hm = HistModel(r["class"], r["init"])
+        print("  constructed:", hm.kw, "\n  observed:", hm.observed())
+        for op in r["ops"]:
+            hm.apply(op, r.get("toggle", 0))
+            print("  after", tlaval.to_tla(op), "->", hm.observed() if r.get("every", True) or op is r["ops"][-1] else "(not read)")
+        print("  expected:", r.get("expected"))
+        return 0
+    if "relation" in r and "lags" in r:  # TPL superposition
+        import gstools as gs
+        with warnings.catch_warnings():
+            warnings.simplefilter("ignore")
+            m = getattr(gs, r["class"])(**r["kwargs"])
+            print("  model:", r["class"], r["kwargs"], "\n  relation:", r["relation"], "\n  TLC case:", r["case"])
+            lhs, rhs = np.array(r["lhs"]), np.array(r["rhs"])
+            i = int(np.argmax(np.abs(lhs - rhs)))
+            print("  correlation now:", np.asarray(m.correlation(np.array(r["lags"])))[max(0, i - 1):i + 2].tolist())
+            print("  recorded lhs:", lhs[max(0, i - 1):i + 2].tolist(), "\n  recorded rhs:", rhs[max(0, i - 1):i + 2].tolist())
+        return 0
     if "state" in r and "class" in r:  # integral scale
         import gstools as gs
         kw, val, exp, obs = int_case(getattr(gs, r["class"]), r["class"], r["state"], r["opt"], r["rescale"], r["toggle"])
